@@ -203,26 +203,33 @@ Definition a_reserve (al : alloc) (k sid : N) : alloc :=
   | Some _ => al          (* same owner: the lease is rewritten unchanged; other owner: ErrAlreadyReserved *)
   | None => mkalloc (aset N.eqb k sid (a_leases al)) (remove_first k (a_free al))
   end.
-Definition a_release (al : alloc) (k : N) : alloc :=
+(* Release: [back] says whether the key may go back on the free list (PoolAllocator.assignable; always for prefixes) *)
+Definition a_release (al : alloc) (k : N) (back : bool) : alloc :=
   match aget N.eqb k (a_leases al) with
-  | Some _ => mkalloc (adel N.eqb k (a_leases al)) (a_free al ++ [k])
+  | Some _ => mkalloc (adel N.eqb k (a_leases al)) (if back then a_free al ++ [k] else a_free al)
   | None => al
   end.
 
-Record pool := mkpool { p_start : N; p_end : N; p_al : alloc }.
+Record pool := mkpool { p_start : N; p_end : N; p_excl : list N; p_al : alloc }.
 Definition p_contains (p : pool) (a : N) : bool := N.leb (p_start p) a && N.leb a (p_end p).
+(* pool.go assignable: inside the range and not excluded *)
+Definition p_assignable (p : pool) (a : N) : bool := p_contains p a && negb (existsb (N.eqb a) (p_excl p)).
+Definition p_reserve (p : pool) (a sid : N) : alloc := a_reserve (p_al p) a sid.
+Definition p_release (p : pool) (a : N) : alloc := a_release (p_al p) a (p_assignable p a).
 
 Fixpoint nseq (a : N) (n : nat) : list N :=
   match n with O => [] | S k => a :: nseq (N.succ a) k end.
 Definition mk_pool (rs re : N) (excl : list N) : pool :=
   let all := if N.ltb re rs then [] else nseq rs (N.to_nat (re - rs + 1)) in
-  mkpool rs re (mkalloc [] (rev (filter (fun a => negb (existsb (N.eqb a) excl)) all))).
+  mkpool rs re excl (mkalloc [] (rev (filter (fun a => negb (existsb (N.eqb a) excl)) all))).
 
-Record pdpool := mkpd { d_base : N; d_plen : N; d_count : N; d_al : alloc }.
+Record pdpool := mkpd { d_base : N; d_netbits : N; d_plen : N; d_count : N; d_al : alloc }.
 Definition n64 : N := 18446744073709551616.
-(* prefix.go prefixToIndex, literally (two 64-bit words, wrapping subtraction, shifts) *)
+(* prefix.go prefixToIndex, literally (network containment check, then two 64-bit words, wrapping subtraction,
+   shifts) *)
 Definition prefix_to_index (d : pdpool) (a len : N) : option N :=
   if negb (N.eqb len (d_plen d)) then None else
+  if negb (N.eqb (N.shiftr a (128 - d_netbits d)) (N.shiftr (d_base d) (128 - d_netbits d))) then None else
   let ahi := (a / n64)%N in let alo := (a mod n64)%N in
   let bhi := (d_base d / n64)%N in let blo := (d_base d mod n64)%N in
   let dlo := ((alo + n64 - blo) mod n64)%N in
@@ -235,7 +242,7 @@ Definition prefix_to_index (d : pdpool) (a len : N) : option N :=
   if N.leb (d_count d) idx then None else Some idx.
 Definition mk_pd (net netbits plen : N) : pdpool :=
   let cnt := (2 ^ (plen - netbits))%N in
-  mkpd (mask_prefix net netbits) plen cnt (mkalloc [] (rev (nseq 0 (N.to_nat cnt)))).
+  mkpd (mask_prefix net netbits) netbits plen cnt (mkalloc [] (rev (nseq 0 (N.to_nat cnt)))).
 Definition d_contains (d : pdpool) (p : N * N) : bool :=
   match prefix_to_index d (fst p) (snd p) with Some _ => true | None => false end.
 
@@ -260,18 +267,18 @@ Definition resolve_d (pools : list (N * pdpool)) (name : N) (p : N * N) : option
             end
   end.
 
-Definition upd_pool (pools : list (N * pool)) (n : N) (f : alloc -> alloc) : list (N * pool) :=
+Definition upd_pool (pools : list (N * pool)) (n : N) (f : pool -> alloc) : list (N * pool) :=
   map (fun np => if N.eqb (fst np) n
-                 then (fst np, mkpool (p_start (snd np)) (p_end (snd np)) (f (p_al (snd np))))
+                 then (fst np, mkpool (p_start (snd np)) (p_end (snd np)) (p_excl (snd np)) (f (snd np)))
                  else np) pools.
 Definition upd_pd (pools : list (N * pdpool)) (n : N) (f : pdpool -> alloc) : list (N * pdpool) :=
   map (fun np => if N.eqb (fst np) n
-                 then (fst np, mkpd (d_base (snd np)) (d_plen (snd np)) (d_count (snd np)) (f (snd np)))
+                 then (fst np, mkpd (d_base (snd np)) (d_netbits (snd np)) (d_plen (snd np)) (d_count (snd np)) (f (snd np)))
                  else np) pools.
 
 Definition reserve_v (pools : list (N * pool)) (name a sid : N) : list (N * pool) :=
   match resolve_v pools name a with
-  | Some n => upd_pool pools n (fun al => a_reserve al a sid)
+  | Some n => upd_pool pools n (fun p => p_reserve p a sid)
   | None => pools
   end.
 Definition d_reserve (d : pdpool) (p : N * N) (sid : N) : alloc :=
@@ -281,7 +288,7 @@ Definition d_reserve (d : pdpool) (p : N * N) (sid : N) : alloc :=
   end.
 Definition d_release (d : pdpool) (p : N * N) : alloc :=
   match prefix_to_index d (fst p) (snd p) with
-  | Some i => a_release (d_al d) i
+  | Some i => a_release (d_al d) i true
   | None => d_al d
   end.
 Definition reserve_d (pools : list (N * pdpool)) (name : N) (p : N * N) (sid : N) : list (N * pdpool) :=
@@ -293,7 +300,7 @@ Definition reserve_d (pools : list (N * pdpool)) (name : N) (p : N * N) (sid : N
 (* repaired release: same resolution as the reservation *)
 Definition release_v (pools : list (N * pool)) (name a : N) : list (N * pool) :=
   match resolve_v pools name a with
-  | Some n => upd_pool pools n (fun al => a_release al a)
+  | Some n => upd_pool pools n (fun p => p_release p a)
   | None => pools
   end.
 Definition release_d (pools : list (N * pdpool)) (name : N) (p : N * N) : list (N * pdpool) :=
@@ -303,7 +310,7 @@ Definition release_d (pools : list (N * pdpool)) (name : N) (p : N * N) : list (
   end.
 (* today: ReleaseIP / ReleaseIANAByIP release from every allocator; ReleasePDByPrefix from the first containing *)
 Definition release_v_all (pools : list (N * pool)) (a : N) : list (N * pool) :=
-  map (fun np => (fst np, mkpool (p_start (snd np)) (p_end (snd np)) (a_release (p_al (snd np)) a))) pools.
+  map (fun np => (fst np, mkpool (p_start (snd np)) (p_end (snd np)) (p_excl (snd np)) (p_release (snd np) a))) pools.
 Definition release_d_first (pools : list (N * pdpool)) (p : N * N) : list (N * pdpool) :=
   match find (fun np => d_contains (snd np) p) pools with
   | Some np => upd_pd pools (fst np) (fun d => d_release d p)
